@@ -459,6 +459,21 @@ impl EpisodeState {
                 format!("frame {}: privacy ttl {n} is in force but the {kind} \"{s}\" of the hop with ttl {ttl} is on the screen ({view} view)", self.frames),
             );
         }
+        // "hops above n are shown normally": the hop table writes the hidden marker once per
+        // responding hop with ttl <= n (and the header once, for the source address); rows
+        // out of view or cut short only take markers away
+        if !app.show_help && !app.show_settings && !app.show_map && !app.show_chart && !app.show_flows {
+            let markers: usize = rows.iter().map(|r| r.matches("**Hidden**").count()).sum();
+            let hidden = hops.iter().filter(|h| h.ttl() > 0 && h.ttl() <= n && h.total_recv() > 0).count();
+            if markers > hidden + 1 {
+                let view = view_name(app);
+                self.violation(
+                    "C18",
+                    format!("c18.over-hidden.{view}"),
+                    format!("frame {}: privacy ttl {n} hides {hidden} responding hop(s), but the frame carries {markers} hidden markers (one belongs to the source address): a hop above n is not shown", self.frames),
+                );
+            }
+        }
         // the map marks a location only for hops that may be shown: every located address
         // has coordinates of its own, so there are at most as many pins on the frame as
         // there are located addresses among the hops above n (dialogs and pins that share
